@@ -90,6 +90,11 @@ def node(rng, pids):
 
 
 def cases(seed, tier):
+    yield from _cases_main(seed, tier)
+    yield from consistency_cases(seed, 200 if tier == "quick" else 2000)
+
+
+def _cases_main(seed, tier):
     n = 600 if tier == "quick" else 6000
     rng = random.Random(seed * 1000003 + 15)
     for i in range(n):
@@ -189,7 +194,72 @@ def cmp_press(got, want):
     return all(feq(g, w) for g, w in zip(got[:3], want[:3])) and got[3] == want[3]
 
 
+def consistency_cases(seed, n):
+    """a control file of a cgroup changes between two queries of one tick (after the k-th cgroup of the probe's pass): whatever
+    moment each value was obtained at, the values reported for one tick must fit together - a cgroup's distributed memory
+    protection is the documented function of the claims reported for its siblings and of its parent's protection"""
+    rng = random.Random(seed * 1000003 + 151)
+    for i in range(n):
+        names = rng.sample(["a", "b", "c", "d", "e"], rng.randint(2, 4))
+        scale = rng.choice([1 << 12, 1 << 20, 1 << 30])
+        cgs = {"/": W.root_cgroup(), "wl": W.cgroup(current=40 * scale, low=rng.choice([0, 3 * scale, 10 * scale, None]))}
+        for nm in names:
+            cgs["wl/" + nm] = W.cgroup(current=rng.randint(1, 9) * scale, low=rng.choice([0, 2 * scale, 6 * scale]), minv=rng.choice([0, 0, scale]))
+        nticks = 4
+        mid = {}
+        for t in range(nticks):
+            tgt = "wl/" + rng.choice(names)
+            fn = rng.choice(["memory.current", "memory.low", "memory.min"])
+            mid[str(t)] = {"after": rng.randint(1, 2),
+                           "ops": [{"op": "write", "cg": tgt, "file": fn, "text": "%d\n" % (rng.randint(1, 20) * scale)}]}
+        # a first probe looks at one child only (its siblings are not in oomd's cache yet when its protection is worked out), the
+        # file changes, then a second probe looks at all of them
+        first = "wl/" + rng.choice(names)
+        cfg = {"rulesets": [{"name": "rp", "post_action_delay": "0",
+                             "detectors": [["g", {"name": "v_probe", "args": {"id": "p1", "cgroup": rng.choice([first, "wl," + first])}},
+                                            {"name": "v_probe", "args": {"id": "p", "cgroup": "wl,wl/*"}}]], "actions": [W.act("pa")]}]}
+        cid = "C15c-%d-%d" % (seed, i)
+        scn = KG.base_scn(cid, cgs, cfg, ticks=[{"step_ns": 10**9} for _ in range(nticks)])
+        scn["probe_mid_ops"] = mid
+        yield core.Case(cid, [scn], {"consistency": True, "names": names})
+
+
+def judge_consistency(case, results):
+    v = core.Verdict()
+    res = results[0]
+    cr = core.classify_crash(res) if res.crashed else core.exception_outcome(res)
+    if cr:
+        v.bad("crash:" + cr[0], cr[1], cr[2])
+        return v
+    n = 0
+    for e in res.events:
+        if e.get("ev") != "probe" or e.get("pass") != 0 or e.get("id") != "p":
+            continue
+        cgs = e["cgs"]
+        par = cgs.get("wl")
+        kids = {k: c for k, c in cgs.items() if k.startswith("wl/")}
+        if not par or par.get("memory_protection") is None or any(c.get(f) is None for c in kids.values() for f in ("current_usage", "memory_low", "memory_min", "memory_protection")):
+            continue
+        claim = {k: min(c["current_usage"], max(c["memory_min"], c["memory_low"])) for k, c in kids.items()}
+        tot = sum(claim.values())
+        for k, c in kids.items():
+            want = 0 if tot == 0 else claim[k] * min(1.0, par["memory_protection"] / tot)
+            n += 1
+            if abs(c["memory_protection"] - want) > 2 + abs(want) * 1e-9:
+                v.bad("values-of-one-tick-disagree", "memory_protection",
+                      "tick %s (a control file changed after %s was probed): %s reports memory_protection=%d, but the claims reported for its siblings in the same tick %s under a parent with protection %d give %.1f" % (
+                          e.get("tick"), e.get("mid_ops_after"), k, c["memory_protection"], claim, par["memory_protection"], want))
+                break
+    v.count("consistency_cases")
+    v.count("protection_values_cross_checked", n)
+    v.nontrivial = n > 0
+    v.sig = core.scn_hash(case.scns[0])
+    return v
+
+
 def judge(case, results):
+    if case.meta.get("consistency"):
+        return judge_consistency(case, results)
     v = core.Verdict()
     res, scn = results[0], case.scns[0]
     cr = core.classify_crash(res) if res.crashed else core.exception_outcome(res)
@@ -347,6 +417,8 @@ def judge(case, results):
 
 def sample(case, v):
     s = case.scns[0]
+    if case.meta.get("consistency"):
+        return {"case": case.id, "mid_tick_changes": s["probe_mid_ops"], "observed": v.stats}
     k = sorted(s["cgroups"])[-1]
     return {"case": case.id, "meta": case.meta, "cgroups": sorted(s["cgroups"]), "files_of_" + k: s["cgroups"][k]["files"],
             "ops_tick1": s["ticks"][1]["ops"][:3], "observed": v.stats}
